@@ -285,7 +285,12 @@ class Ctx:
 
 
 def load_prop(prop_id):
-    return importlib.import_module("pbt.props." + prop_id.lower())
+    mod = importlib.import_module("pbt.props." + prop_id.lower())
+    if getattr(mod, "OPTION_PROBES", None) and not hasattr(mod, "PROBED"):
+        # once per process, before any case and before any replay: see sut.probe_options
+        from pbt import sut
+        mod.PROBED = sut.probe_options(mod.OPTION_PROBES)
+    return mod
 
 
 def _run_shard(args):
@@ -294,6 +299,8 @@ def _run_shard(args):
     out = {"failure": None, "harness_error": None}
     try:
         mod = load_prop(prop_id)
+        if getattr(mod, "PROBED", None):
+            ctx.notes["new_optional_parameters_probed_first"] = mod.PROBED[:40]
         mod.run(ctx)
     except PropertyFailure as exc:
         out["failure"] = {"part": exc.part, "case": exc.case, "message": exc.message,
